@@ -34,3 +34,17 @@ Theorem C11_gm_view : forall b d dd,
                                         (dd_quality dd) (dd_prio1 dd) (dd_prio2 dd))
                              [] (mkTP None 0 false false true 160)).
 Proof. exact gm_view. Qed.
+
+(** C11_emission_main: for every valid set-up and EVERY valid event list, every
+    Announce the model emits carries exactly the data sets held at emission
+    (grandmaster identity, quality, priorities, stepsRemoved, UTC offset, time
+    source, leap / traceability flags): the emission conjunct of the oracle
+    ok_C11 ([ok_C11_emission], which ok_C11 implies) holds on the model's own
+    trace. *)
+From SV Require Import Port.MainC11.
+Theorem C11_emission_main : forall s es rel,
+  setup_valid s -> Forall event_valid es ->
+  exists i o, init s = Ok (i, o) /\ ok_C11_emission (mkCase s es rel (Some o) (run i es)) = true.
+Proof. exact ok_C11_emission_model. Qed.
+Theorem C11_oracle_implies_emission : forall c, ok_C11 c = true -> ok_C11_emission c = true.
+Proof. exact ok_C11_implies_emission. Qed.
